@@ -67,19 +67,52 @@ pub fn filters() -> Vec<Cfg> {
 }
 
 /// endpoints the way every analyzer's own parser reads them
-pub fn analyzer_endpoints(frame: &[u8]) -> Option<(IpAddr, IpAddr, u16, u16)> {
-    use huginn_net_tcp::packet_parser::{parse_packet, IpPacket};
+/// endpoints the way an analyzer's OWN copy of the frame parser reads them (the four crates carry separate copies)
+macro_rules! endpoints_impl {
+    ($name:ident, $krate:ident) => {
+        pub fn $name(frame: &[u8]) -> Option<(IpAddr, IpAddr, u16, u16)> {
+            use $krate::packet_parser::{parse_packet, IpPacket};
+            use pnet::packet::tcp::TcpPacket;
+            use pnet::packet::Packet;
+            match parse_packet(frame) {
+                IpPacket::Ipv4(ip) => {
+                    if ip.get_next_level_protocol() != pnet::packet::ip::IpNextHeaderProtocols::Tcp {
+                        return None;
+                    }
+                    let t = TcpPacket::new(ip.payload())?;
+                    Some((IpAddr::V4(ip.get_source()), IpAddr::V4(ip.get_destination()), t.get_source(), t.get_destination()))
+                }
+                IpPacket::Ipv6(ip) => {
+                    if ip.get_next_header() != pnet::packet::ip::IpNextHeaderProtocols::Tcp {
+                        return None;
+                    }
+                    let t = TcpPacket::new(ip.payload())?;
+                    Some((IpAddr::V6(ip.get_source()), IpAddr::V6(ip.get_destination()), t.get_source(), t.get_destination()))
+                }
+                IpPacket::None => None,
+            }
+        }
+    };
+}
+endpoints_impl!(analyzer_endpoints, huginn_net_tcp);
+endpoints_impl!(endpoints_http, huginn_net_http);
+endpoints_impl!(endpoints_tls, huginn_net_tls);
+/// the unified analyzer's parser hands out the IP bytes, not a packet view
+pub fn endpoints_unified(frame: &[u8]) -> Option<(IpAddr, IpAddr, u16, u16)> {
+    use huginn_net::packet_parser::{parse_packet, IpPacket};
     use pnet::packet::tcp::TcpPacket;
     use pnet::packet::Packet;
     match parse_packet(frame) {
-        IpPacket::Ipv4(ip) => {
+        IpPacket::Ipv4(d) => {
+            let ip = pnet::packet::ipv4::Ipv4Packet::new(d)?;
             if ip.get_next_level_protocol() != pnet::packet::ip::IpNextHeaderProtocols::Tcp {
                 return None;
             }
             let t = TcpPacket::new(ip.payload())?;
             Some((IpAddr::V4(ip.get_source()), IpAddr::V4(ip.get_destination()), t.get_source(), t.get_destination()))
         }
-        IpPacket::Ipv6(ip) => {
+        IpPacket::Ipv6(d) => {
+            let ip = pnet::packet::ipv6::Ipv6Packet::new(d)?;
             if ip.get_next_header() != pnet::packet::ip::IpNextHeaderProtocols::Tcp {
                 return None;
             }
@@ -125,14 +158,17 @@ fn wrap(link: u8, ip: &[u8]) -> Vec<u8> {
             f[..12].copy_from_slice(&[0x1e, 0, 0, 0, 0x60, 0x01, 0x02, 0, 0, 0, 0x06, 0x01]);
             f
         }
-        _ => {
+        9 => {
             let mut f = pkt::frame(Link::Ethernet, ip);
             f[..12].copy_from_slice(&[0x02, 0, 0, 0, 0x45, 0x00, 0x00, 0x28, 0, 0, 0x40, 0x00]);
             f
         }
+        // 802.1Q tagged frames: no parser or filter of the repository unwraps them - if one of them starts to, all must
+        10 => pkt::frame(Link::Vlan(0x8100), ip),
+        _ => pkt::frame(Link::Vlan(0x88a8), ip),
     }
 }
-const LINKS: [&str; 10] = ["raw", "ethernet", "null-1e", "null-02", "null-1c", "ethernet-macs-like-ipv4-header", "ethernet-macs-like-ipv6-header", "ethernet-macs-like-loopback-1e-ipv4", "ethernet-macs-like-loopback-1e-ipv6", "ethernet-macs-like-loopback-02"];
+const LINKS: [&str; 12] = ["raw", "ethernet", "null-1e", "null-02", "null-1c", "ethernet-macs-like-ipv4-header", "ethernet-macs-like-ipv6-header", "ethernet-macs-like-loopback-1e-ipv4", "ethernet-macs-like-loopback-1e-ipv6", "ethernet-macs-like-loopback-02", "vlan-8100", "vlan-88a8"];
 
 pub fn traces() -> Vec<Trace> {
     let mut v = vec![];
@@ -144,7 +180,7 @@ pub fn traces() -> Vec<Trace> {
             if v6 && ihl != 5 {
                 continue;
             }
-            for link in 0..10u8 {
+            for link in 0..12u8 {
                 for (cport, sport) in [(40000u16, 80u16), (40005, 443)] {
                     let mk = |from_client: bool, flags: u8, seq: u32, payload: &[u8]| -> Vec<u8> {
                         let (src, sp, dst, dp) = if from_client { (1u8, cport, 2u8, sport) } else { (2, sport, 1, cport) };
@@ -221,16 +257,22 @@ fn nonempty<T, F: Fn(&T) -> bool>(v: Vec<T>, empty: F) -> Vec<T> {
 pub fn check(r: &mut Report, t: &Trace, c: &Cfg) {
     // reference sub-trace: frames the filter admits, judged on the analyzer's own reading of the endpoints;
     // frames the analyzer cannot attribute to endpoints can neither yield a result nor create state
-    let sub: Vec<Vec<u8>> = t
-        .frames
-        .iter()
-        .filter(|f| match analyzer_endpoints(f) {
-            Some((si, di, sp, dp)) => ref_should_process(c, &si, &di, sp, dp),
-            None => true,
-        })
-        .cloned()
-        .collect();
     for an in ["tcp", "http", "tls", "unified"] {
+        let ends: fn(&[u8]) -> Option<(IpAddr, IpAddr, u16, u16)> = match an {
+            "tcp" => analyzer_endpoints,
+            "http" => endpoints_http,
+            "tls" => endpoints_tls,
+            _ => endpoints_unified,
+        };
+        let sub: Vec<Vec<u8>> = t
+            .frames
+            .iter()
+            .filter(|f| match ends(f) {
+                Some((si, di, sp, dp)) => ref_should_process(c, &si, &di, sp, dp),
+                None => true,
+            })
+            .cloned()
+            .collect();
         r.exec((t.frames.len() + sub.len()) as u64);
         let res = guarded(|| -> Result<(Vec<String>, Vec<String>), String> {
             Ok(match an {
